@@ -57,11 +57,15 @@ func c15StartCLI(root string, cfg c15Cfg, st *c15State) (*c15Env, error) {
 	if cfg.Writable {
 		args = append(args, "-w")
 	}
-	if cfg.Auth != "" {
+	// the value comes from --authorization (chunk server) or from DESYNC_HTTP_AUTH (index server)
+	envAuth := ""
+	if cfg.Auth != "" && cfg.Kind == "chunk" {
 		args = append(args, "--authorization", cfg.Auth)
+	} else {
+		envAuth = cfg.Auth
 	}
 	cmd := exec.Command(bin, args...)
-	cmd.Env = append(os.Environ(), "DESYNC_HTTP_AUTH=")
+	cmd.Env = append(os.Environ(), "DESYNC_HTTP_AUTH="+envAuth)
 	var stderr bytes.Buffer
 	cmd.Stderr = &stderr
 	if err := cmd.Start(); err != nil {
